@@ -182,7 +182,20 @@ func c05Gen(t *rapid.T) c05Case {
 	if len(c.X) > 6000 {
 		c.X = c.X[:6000]
 	}
-	c.Limit = vfGenLimit(t, len(c.X))
+	// sizes and limits around buffer-growth boundaries (3072 * 2^k, 4096, 8192 ...)
+	if rapid.IntRange(0, 5).Draw(t, "sized") == 0 {
+		n := rapid.SampledFrom([]int{512, 1024, 3071, 3072, 3073, 3074, 4095, 4096, 4097, 6143, 6144, 6145, 6146, 8192, 12288, 12290}).Draw(t, "size")
+		for len(c.X) < n {
+			c.X = append(c.X, c.X...)
+			if len(c.X) == 0 {
+				c.X = append(c.X, 'x')
+			}
+		}
+		c.X = c.X[:n]
+		c.Limit = rapid.SampledFrom([]uint32{0, 3072, 4096, 6144, 8192, 16384, uint32(n), uint32(n + 1), uint32(2 * n)}).Draw(t, "sizedlim")
+	} else {
+		c.Limit = vfGenLimit(t, len(c.X))
+	}
 	if c.Limit > 1<<22 {
 		c.Limit = 1 << uint(rapid.IntRange(12, 22).Draw(t, "biglim"))
 	}
